@@ -302,7 +302,10 @@ MANIFEST = dict(
     text="Proof: in the model of save_errno/restore_errno, b_get_errno/b_set_errno, C calls and callbacks, for every "
          "schedule over any number of threads every thread observes exactly one logical errno of its own: values assigned "
          "to ffi.errno reach the C code, values left by C code or assigned in callbacks reach ffi.errno, interpreter noise "
-         "and other threads are invisible; out-of-range assignments are refused. Partial: thread-locality of __thread "
+         "and other threads are invisible; out-of-range assignments are refused. The four call paths of the property "
+         "(ABI call, API-mode wrapper, callbacks / extern \"Python\", global-variable fetch) share one restore/call/save "
+         "bracket in the model; that each real path brackets its call this way is decided by the correspondence only. "
+         "Partial: thread-locality of __thread "
          "storage and of the C errno is the hypothesis (its negation is refuted in the model and caught on the real code "
          "by the interleaved runs).",
     note="Trusted: Coq kernel; hand model tied by differential runs (ABI: b_call/invoke_callback; API: generated wrappers, "
